@@ -1,10 +1,12 @@
 (* C13 - the temporal store answers by the pointwise meaning of intervals.
    Property theorems only; each is closed by an exact reference to a lemma. *)
-From Coq Require Import List ZArith Permutation.
-From MV Require Import Temporal.ITree Temporal.ITreeProofs.
+From Coq Require Import List ZArith Bool Permutation.
+From MV Require Import Temporal.ITree Temporal.ITreeProofs Temporal.TStore Temporal.CoalesceProofs
+  Temporal.TStoreProofs Temporal.Semantics.
 Import ListNotations.
 Open Scope Z_scope.
 
+(* ---------------- the interval tree, every insertion order, every rotation *)
 Theorem insert_keeps_every_interval : forall t i, Permutation (elements (insert t i)) (i :: elements t).
 Proof. exact insert_elements. Qed.
 Print Assumptions insert_keeps_every_interval.
@@ -24,3 +26,83 @@ Print Assumptions range_query_exact.
 Theorem duplicate_search_exact : forall t i, inv t -> find_exact t i = existsb (iv_eqb i) (elements t).
 Proof. exact find_exact_spec. Qed.
 Print Assumptions duplicate_search_exact.
+
+(* key comparison with the int64 sentinels is the pointwise meaning of a closed,
+   possibly unbounded interval *)
+Theorem contains_is_pointwise : forall i t, wf_iv i -> minInt64 <= t <= maxInt64 ->
+  (contains i t = true <-> holds_at i t).
+Proof. exact contains_holds_at. Qed.
+Print Assumptions contains_is_pointwise.
+
+(* ---------------- the store: every insertion history *)
+(* after any history of Add calls the store invariant holds and the content is
+   (a permutation of) the set machine's: valid, non-duplicate pairs below the
+   per-atom limit, each once; the pair count is its length (part of store_inv) *)
+Theorem store_refines_set_machine : forall lim h,
+  let s := run_adds lim h in
+  store_inv s /\ limit s = lim /\ Permutation (abs s) (spec_run lim h).
+Proof. exact tstore_refines. Qed.
+Print Assumptions store_refines_set_machine.
+
+(* Add's answer (added / duplicate / invalid / limit) is the set machine's *)
+Theorem add_answers_by_set_semantics : forall lim h a i,
+  snd (ts_add (run_adds lim h) a i) = snd (spec_add (spec_run lim h) lim a i).
+Proof. exact add_result_refines. Qed.
+Print Assumptions add_answers_by_set_semantics.
+
+Theorem point_query_is_filter : forall s q t, store_inv s ->
+  ts_facts_at s q t = filter (fun x : atom * iv => matches q (fst x) && contains (snd x) t) (abs s).
+Proof. exact facts_at_exact. Qed.
+Print Assumptions point_query_is_filter.
+
+Theorem range_query_is_filter : forall s q i, store_inv s ->
+  ts_facts_during s q i = filter (fun x : atom * iv => matches q (fst x) && overlaps (snd x) (ks i) (ke i)) (abs s).
+Proof. exact facts_during_exact. Qed.
+Print Assumptions range_query_is_filter.
+
+Theorem scan_is_filter : forall s q, store_inv s ->
+  ts_all_facts s q = filter (fun x : atom * iv => matches q (fst x) && true) (abs s).
+Proof. exact all_facts_exact. Qed.
+Print Assumptions scan_is_filter.
+
+(* non-vacuity: a reachable store with three atoms' worth of intervals meets store_inv *)
+Example store_inv_reachable :
+  let s := run_adds 1000 [((1, [7]), (Ts 3, Ts 9)); ((1, [7]), (NegInf, Ts 4)); ((1, [8]), (Ts 5, PosInf)); ((1, [7]), (Ts 3, Ts 9))] in
+  store_inv s /\ count s = 3 /\ ts_facts_at s (1, [None]) 4 = [((1, [7]), (NegInf, Ts 4)); ((1, [7]), (Ts 3, Ts 9))].
+Proof. split; [apply (tstore_refines 1000)|split; vm_compute; reflexivity]. Qed.
+
+(* ---------------- coalescing *)
+(* the set of instants at which the atom holds is unchanged *)
+Theorem coalesce_pointset : forall l t, dom_ok l ->
+  (covered_iv (coalesce_intervals l) t <-> covered_iv l t).
+Proof. exact coalesce_pointset_lemma. Qed.
+Print Assumptions coalesce_pointset.
+
+(* any two finite intervals of the result, in result order, are neither
+   overlapping nor adjacent: the later one starts at least 2 ns after the
+   earlier one ends *)
+Theorem coalesce_separated : forall l, dom_ok l ->
+  forall l1 x l2 y l3, filter is_concrete (coalesce_intervals l) = l1 ++ x :: l2 ++ y :: l3 ->
+  2 <= Z.of_nat (length l) -> ke x + 1 < ks y.
+Proof. exact coalesce_separated_lemma. Qed.
+Print Assumptions coalesce_separated.
+
+(* through the tree: Coalesce = collect, coalesce, Rebuild *)
+Theorem coalesce_through_tree_pointset : forall t tt, it_inv t -> dom_ok (elements (fst t)) ->
+  (covered_iv (elements (fst (it_rebuild (coalesce_intervals (elements (fst t)))))) tt <-> covered_iv (elements (fst t)) tt).
+Proof. exact coalesce_tree_pointset. Qed.
+Print Assumptions coalesce_through_tree_pointset.
+
+Example dom_ok_nonvacuous : dom_ok [(Ts 1, Ts 3); (Ts 4, Ts 6); (NegInf, Ts 0); (Ts 9, Ts 9)] /\
+  coalesce_intervals [(Ts 1, Ts 3); (Ts 4, Ts 6); (NegInf, Ts 0); (Ts 9, Ts 9)] = [(Ts 1, Ts 6); (Ts 9, Ts 9); (NegInf, Ts 0)].
+Proof.
+  split; [|vm_compute; reflexivity].
+  intros i Hi Hc. simpl in Hi. unfold minInt64, maxInt64.
+  repeat (destruct Hi as [<-|Hi]; [cbn in *; try discriminate; repeat split; try reflexivity; try discriminate|]); destruct Hi.
+Qed.
+
+(* finding N13 (recorded, not repaired): two finite intervals that both start at
+   MinInt64 are not merged although they overlap - Go's `curr.Start-1` wraps *)
+Theorem coalesce_minint_refuted :
+  coalesce_intervals [(Ts minInt64, Ts 5); (Ts minInt64, Ts 9)] = [(Ts minInt64, Ts 5); (Ts minInt64, Ts 9)].
+Proof. exact coalesce_minint_refuted_lemma. Qed.
